@@ -4,7 +4,7 @@ CHECK = {
         suite("rot", "c14", 400, 4000, stdin=True, args=["-suite", "rot"], timeout={"quick": 600, "thorough": 1800}),
         suite("ps", "c14", 800, 8000, stdin=True, args=["-suite", "ps"], timeout={"quick": 600, "thorough": 1800}),
         suite("start", "c14", 14, 400, stdin=True, args=["-suite", "start"], timeout={"quick": 600, "thorough": 1800}),
-        suite("snaps", "c14", 300, 3000, stdin=True, args=["-suite", "snaps"], timeout={"quick": 600, "thorough": 1800}),
+        suite("snaps", "c14", 360, 3600, stdin=True, args=["-suite", "snaps"], timeout={"quick": 600, "thorough": 1800}),
         suite("crash", "c14", 24, 240, stdin=True, args=["-suite", "crash"], timeout={"quick": 600, "thorough": 2400}),
     ],
     "search_seeds": {"quick": 3, "thorough": 2},
@@ -12,7 +12,8 @@ CHECK = {
     "lean_sources": ["ClusterVerif/Model/C14Source.lean", "ClusterVerif/Gen/C14.lean", "ClusterVerif/Model/C14.lean", "ClusterVerif/Spec/C14.lean", "ClusterVerif/Lemmas/C14.lean",
                      "ClusterVerif/Model/C14Crash.lean", "ClusterVerif/Spec/C14Crash.lean", "ClusterVerif/Lemmas/C14Crash.lean",
                      "ClusterVerif/Model/C14Start.lean", "ClusterVerif/Spec/C14Start.lean", "ClusterVerif/Lemmas/C14Start.lean",
-                     "ClusterVerif/Model/C14Snaps.lean", "ClusterVerif/Spec/C14Snaps.lean", "ClusterVerif/Lemmas/C14Snaps.lean"],
+                     "ClusterVerif/Model/C14Snaps.lean", "ClusterVerif/Spec/C14Snaps.lean", "ClusterVerif/Lemmas/C14Snaps.lean",
+                     "ClusterVerif/Model/C14Damage.lean", "ClusterVerif/Spec/C14Damage.lean", "ClusterVerif/Lemmas/C14Damage.lean"],
     "rule": "pins: (pinset of 0-40 generated pins over all types/options, prior content of the target, stream damage) through "
             "Marshal/Unmarshal, SnapshotSave/OfflineState, raft and crdt state-manager export/import (and a started Raft peer on some); "
             "rot: (retention, pre-existing folder set with gaps/outside the window, 1-14 clean/save/mkdir/reconfigure operations) on real folders; "
@@ -27,10 +28,14 @@ CHECK = {
             "snaps: (data folder absent / empty / holding 1-6 REAL hashicorp file snapshots with chosen (term, index) written in any creation order - terms 9/10/11 and indices 9/10/99/100/1000 so that "
             "numeric and name order differ - and leftovers: an interrupted `.tmp` snapshot, a directory with unreadable meta.json, a plain file) x (offline read | CleanupRaft | SnapshotSave): which snapshot is read, "
             "metadata of the new snapshot, what old.0 holds; "
+            "round 8c: a snapshot may be DAMAGED (`T.I.Cd`: one byte of state.bin flipped, meta.json intact - the newest one half of the time) and two snapshots may share one (term, index) "
+            "(created last or in between); ops also `i<C>` (the real raft state manager's ImportState onto the folder) and `b` (a REAL single-voter raft.NewConsensus peer STARTED on the folder; "
+            "its snapshots name that peer as the only voter): refusal vs fall-back, what old.0 holds, what the started peer serves; "
             "one splitmix64 stream per case index; non-trivial = exercises a clause; distinct by case line",
     "trusted_base": ["byte-level codecs of the atoms (cid, peer id, multiaddress, strings, time) are abstracted to table indices: "
                      "the harness maps real values back to indices and reports anything it cannot map",
                      "go-datastore MapDatastore/leveldb/badger, hashicorp/raft FileSnapshotStore, libp2p memory peerstore behave as their APIs say",
+                     "hashicorp/raft v1.1.1 FileSnapshotStore.Open's checksum test and restoreSnapshot's fall-back to the next snapshot that opens are observed (snaps suite, damaged snapshots), not regenerated; damage = one flipped byte of state.bin (a damaged meta.json is the `m` leftover); "
                      "hashicorp/raft v1.1.1 start-up (restore of the newest snapshot, replay of the log entries behind its index once the single voter leads) is observed through the started peer, not regenerated; "
                      "'killed' = the data folder copied while the peer runs idle after its last commit returned",
                      "crash = death of the process between two system calls (strace inject signal=KILL on entering the K-th call); power loss / fsync ordering is outside the model; "
@@ -47,9 +52,14 @@ META = {
             "history of pins/unpins/graceful restarts (restart_keeps_state_full_holds, by the index invariant of the log it writes), and its shutdown snapshot reads offline as that pinset (graceful_offline_id); "
             "a folder with SEVERAL snapshots and leftovers: the offline read is the snapshot no other is newer than by (term, index), independent of the listing order (offline_reads_newest, newest_perm), "
             "SnapshotSave onto any such folder reads back as the saved pinset and moves the whole folder to old.0 (save_offline_id_multi, save_backs_up_all, save_fresh). "
+            "Damaged snapshots (state.bin fails its checksum) and equal (term, index): the offline read is the latest snapshot or - only when that one is damaged - a refusal, never an older pinset "
+            "(offline_never_stale, offline_broken_iff, with the refuted fall-back alternative offline_is_not_fallback: a STARTED peer does fall back, observed on a real peer); SnapshotSave on a damaged newest is "
+            "refused and touches nothing, `state import` succeeds on every folder and backs the whole folder up (save_refused_on_damaged_newest, import_onto_damaged_id); of equal keys the one created last is read "
+            "(tie_latest_created_wins); retention never removes what is read (reap_keeps_newest). raftStateManager.ImportState is tied semantically: its operation list read from the syntax tree, INTERPRETED "
+            "on the folder model, is the model's import for every folder (gen_sem_import_is_model). "
             "The model is tied to today's code by running the real dsstate, raft snapshot/cleanup functions, cmdutils state managers and "
             "pstoremgr, and a real single-voter Raft peer (writes the folder, is killed or shut down, is started again after the import) on seeded cases and checking model agreement and the Lean property checker on the real outputs.",
     "note": "export/import is proved for pinsets without origins; a pin with origins cannot be decoded from JSON (known finding K01c). "
             "Atoms are table indices (byte codecs are C08's subject).",
-    "technique": "regenerated source text of the anchored functions checked against the transcribed snapshot (rfl) + Lean 4 theorems over functional/relational models + differential correspondence with the real code",
+    "technique": "regenerated source text of the anchored functions checked against the transcribed snapshot (rfl) + go/ast facts and an interpreted operation list (SnapshotSave, CleanupRaft, latestSnapshot, ImportState) + Lean 4 theorems over functional/relational models + differential correspondence with the real code",
 }
